@@ -4,6 +4,6 @@ From SV Require Import Base.Prelude Model.Sched Model.Timestamp.
 Require Extraction.
 Require Import ExtrOcamlBasic ExtrOcamlString.
 Extraction Language OCaml.
-Extraction "../ocaml/c18/model.ml" compute_next strictly_incr all_distinct prop_ok final_ok
+Extraction "../ocaml/c18/model.ml" compute_next compute_next_checked warn_sub_overflows strictly_incr all_distinct prop_ok final_ok
   accept_sample accept_samples phase_ok choose_ts frames_ts gen_consulted step init run handed_out sched_ok
   Z.to_N N.to_nat Z.add Z.sub Z.ltb.
